@@ -151,7 +151,7 @@ impl Database {
 
                     if let Some((_path, storage)) = storages.get_mut(&file_id) {
                         if header.page_no >= storage.page_count() {
-                            let required_pages = header.db_size.max(header.page_no + 1);
+                            let required_pages = header.db_size.max(header.page_no.saturating_add(1));
                             storage.grow(required_pages).wrap_err_with(|| {
                                 format!(
                                     "failed to grow storage for file_id={} to {} pages",
@@ -430,7 +430,7 @@ impl Database {
 
                 if let Some((_path, storage)) = storages.get_mut(&file_id) {
                     if header.page_no >= storage.page_count() {
-                        let required_pages = header.db_size.max(header.page_no + 1);
+                        let required_pages = header.db_size.max(header.page_no.saturating_add(1));
                         storage.grow(required_pages).wrap_err_with(|| {
                             format!(
                                 "failed to grow storage for file_id={} to {} pages",
